@@ -110,6 +110,11 @@ type Addr [20]byte
 
 func (*Addr) ShapeName() string { return "addr" }
 
+// Unit is a Shape without any serialized field: its encoding is the object code alone (a marker object).
+type Unit struct{}
+
+func (*Unit) ShapeName() string { return "unit" }
+
 // PayA is a Payload.
 type PayA struct {
 	V uint64 `serix:""`
